@@ -81,9 +81,14 @@ func Single(t *testing.T, routerID string, p PeerSpec, out bool, delays []int64,
 type PrevSession struct {
 	Hold uint16 `json:"hold"`
 	End  string `json:"end"`
+	// In: with an outbound session under test, this earlier session is an inbound one
+	In bool `json:"in,omitempty"`
 }
 
-// SinglePrev is Single preceded by earlier sessions on the same direction.
+// SinglePrev is Single preceded by earlier sessions. They use the direction of the session
+// under test, except that, when that is outbound, an earlier session marked In arrives as an
+// inbound connection (the dials are refused meanwhile): what the inbound slot of the peer went
+// through must have no bearing on the outbound connection either.
 func SinglePrev(t *testing.T, routerID string, p PeerSpec, out bool, delays []int64, prev []PrevSession, body func(w *World, c *memnet.Conn)) (o Outcome, setupErr error) {
 	if len(prev) == 0 {
 		return Single(t, routerID, p, out, delays, body)
@@ -95,30 +100,51 @@ func SinglePrev(t *testing.T, routerID string, p PeerSpec, out bool, delays []in
 			return
 		}
 		defer w.Finish()
-		if out {
-			plans := make([]memnet.DialPlan, len(prev)+1, len(prev)+2)
-			for i := range plans {
-				plans[i] = memnet.DialPlan{Kind: memnet.Accept}
-			}
-			w.Net.SetPlans(p.RemoteAddr(), append(plans, memnet.DialPlan{Kind: memnet.Refuse})...)
+		// dirOut[k]: session k (the last is the one under test) comes about by an accepted dial
+		dirOut := make([]bool, len(prev)+1)
+		for k := range dirOut {
+			dirOut[k] = out && !(k < len(prev) && prev[k].In)
 		}
+		plan := func(k int) {
+			if !out {
+				return
+			}
+			if dirOut[k] {
+				w.Net.SetPlans(p.RemoteAddr(), memnet.DialPlan{Kind: memnet.Accept}, memnet.DialPlan{Kind: memnet.Refuse})
+			} else {
+				w.Net.SetPlans(p.RemoteAddr(), memnet.DialPlan{Kind: memnet.Refuse})
+			}
+		}
+		plan(0)
 		if err := w.AddPeer(p); err != nil {
 			setupErr = fmt.Errorf("AddPeer: %w", err)
 			return
 		}
 		w.Serve()
 		w.Settle()
+		seen := 0 // dial attempts looked at so far
 		get := func(k int) *memnet.Conn {
-			if !out {
+			if !dirOut[k] {
 				c := w.Inbound(p.Remote, LocalFor(p))
 				w.Settle()
+				seen = len(w.Net.Dials())
 				return c
 			}
-			if !w.Net.WaitDials(k+1, 10*time.Minute) {
-				return nil
+			// the next accepted dial (attempts made under a refusing plan are skipped)
+			for tries := 0; tries < 8; tries++ {
+				ds := w.Net.Dials()
+				for ; seen < len(ds); seen++ {
+					if ds[seen].Conn != nil {
+						seen++
+						return ds[seen-1].Conn
+					}
+				}
+				if !w.Net.WaitDials(len(ds)+1, 10*time.Minute) {
+					return nil
+				}
+				w.Settle()
 			}
-			w.Settle()
-			return w.Net.Dials()[k].Conn
+			return nil
 		}
 		for k, ps := range prev {
 			c := get(k)
@@ -135,6 +161,7 @@ func SinglePrev(t *testing.T, routerID string, p PeerSpec, out bool, delays []in
 				setupErr = fmt.Errorf("earlier session %d (remote hold %d) did not establish", k, ps.Hold)
 				return
 			}
+			plan(k + 1) // the dial that follows the end of this session already belongs to the next
 			switch ps.End {
 			case "cease":
 				c.RemoteSend(wire.Notif{Code: 6, Sub: 4}.Frame(), nil)
